@@ -505,7 +505,7 @@ def read_pagexml_dirs(pagexml_dirs: Union[str, List[str]]) -> List[str]:
     if isinstance(pagexml_dirs, str):
         pagexml_dirs = [pagexml_dirs]
     for pagexml_dir in pagexml_dirs:
-        pagexml_files += glob.glob(pagexml_dir + "**/*.xml", recursive=True)
+        pagexml_files += glob.glob(os.path.join(pagexml_dir, "**/*.xml"), recursive=True)
     return pagexml_files
 
 
